@@ -658,7 +658,7 @@ func main() {
 			"O4: 9 positions x 6 imported formats x 3 path forms x 3 import forms x 5 macro variants. Every case builds and runs two real templates; non-trivial = both forms build (and their outputs or run errors are compared)",
 		Assumptions: []string{
 			"N, P and M (see more.go) are all-HTML file sets in plain text position, where O1 holds on the unchanged tree; N: main form (show, assigned) x output before the calls (none, some) x nested render of a third file (none, show, :=, var =) x value of an imported macro (none, before, after the nested render) x 7 bodies of the third file (among them macro values and renders of a fourth file in assigned forms) x 3 path forms, judged by O1 against the all-show forms and by O2 at two levels; P: a/x.html and b/x.html each referring to \"t.html\" (render show / assigned, import + show / var) reached from one index in both orders, forms and spellings, and one file rendered twice under every pair of spellings from the root and from a subdirectory, judged by O2; M: a body macro capturing nothing / a local variable / a global, calling an imported macro that reads (or updates) its own package-level variable and/or rendering a file with its own variable, called twice in show or assigned form, judged against the hand-expanded single file (O4 + O2)",
-			"I, R and F (see more2.go): I: 6 scenarios x 15 positions of the first import site x 3 x 3 import forms, judged by an initialise-once model of lib.html's six variables (int, string, float, slice, macro-call value, dependent expression; Inc() adds 1 to V) and, when nothing ran before it, by O2 against b.html run alone; R: own macro / variable named as an imported one x 3 import forms x 3 hosts x 2 positions against the twin with the imported names renamed (a plain import clashing in one scope may be rejected as a redeclaration, as Go's dot imports are); F: 11 name shapes x 5 constructs x 4 path forms against the twin with a boring name",
+			"I, R and F (see more2.go): I: 6 scenarios x 15 positions of the first import site x 3 x 3 import forms, judged by two accepted models of lib.html's six variables (int, string, float, slice, macro-call value, dependent expression; Inc() adds 1 to V) — initialised once and shared, or freshly initialised for every execution of a rendered file — and, when nothing ran before it, by O2 against b.html run alone; R: own macro / variable named as an imported one x 4 import forms (plain, for Other, for <clashing name>, Other, alias) x 4 hosts (main, extended layout, imported, extending file) x 2 positions x one reference under test per case (direct, sibling macro, function literal, in if, in for, macro argument, from the extended layout, references to the imported name before / after the block, qualified) against the twin with the imported names renamed (a plain import clashing in one scope may be rejected as a redeclaration, as Go's dot imports are); F: 11 name shapes x 5 constructs x 4 path forms against the twin with a boring name",
 			"a Markdown converter that wraps its input in <md>…</md> is installed, so that Markdown values can be shown in HTML",
 			"O1: when only one of the two forms builds the case is counted in its own class and is not a failure (the statement compares outputs)",
 			"O3/O4: the hand-written equivalent declares the macros with an explicit result type when the declaring file's format differs from the file they are inlined into",
